@@ -86,7 +86,7 @@ StrategyOK(e) ==
             /\ e.covered = e.n                                        \* every observation falls into a bin
             /\ e.hist_total = e.n                                     \* and a histogram over the grid counts all of them
             /\ (Has(e, "raw") => EqualWidth(e.raw))                   \* integer data: exactly equal widths
-            /\ ((Has(e, "wdev") /\ e.mode # "big") => e.wdev <= 64)     \* float data: equal at the quantum (not when the width is within a few ulps of the data, mode "big")
+            /\ ((Has(e, "wdev") /\ e.mode \in {"quarter", "tenth", "third"}) => e.wdev <= 64)     \* float data: equal at the quantum (only where the width is many ulps of the data: not for the offset / big modes)
             /\ (~e.isfloat => e.n_bins = e.bins_len))                 \* advertised number of bins = bins built
 
 Stateless(e) ==
